@@ -409,3 +409,14 @@ def run(ctx, prog, res):
     want, have = day_offsets(ev), day_offsets(oh_hint)
     r7.check(bool(want) and want <= have, {"day_evaluation_consults_offsets": sorted(want), "hint_consults_offsets": sorted(have)}, "C02.R7:days",
              "the day's schedule consults the day selector at day offsets %s, the skip hint only at %s: a rule that matched yesterday and spills over the whole of today lets the hint jump over tomorrow's change" % (sorted(want), sorted(have)), lib.where_of(oh_hint))
+
+    # R2 (continued): the 'immutable full day' predicate the hint trusts
+    TS = "opening_hours_syntax::rules::time::TimeSpan"
+    ifd = prog.impl_method_one("TimeFilter", "is_immutable_full_day", self_adt=TS)
+    got = lib.reads(prog, ifd.id, TS)
+    missing = [n for n in ("range", "open_end", "repeats") if ("TimeSpan", n) not in got]
+    r2.check(not missing, {"fn": ifd.id, "reads": sorted(n for _, n in got)}, "C02.R2:immutable-full-day:reads",
+             "TimeSpan::is_immutable_full_day never reads %s: a span that is not the plain 00:00-24:00 can be taken for one, and the hint then skips its spill or its changes" % missing, lib.where_of(ifd))
+    ords = [flow.call_name(t).split("::")[-1] for x in prog.with_closures(ifd.id) for _, t in prog.fns[x].calls() if re.search(r"PartialOrd.*::(lt|le|gt|ge)$|Ord.*::cmp$", flow.call_name(t))]
+    r2.check(not ords, {"fn": ifd.id, "bounds_compared_by": "equality"}, "C02.R2:immutable-full-day:equality",
+             "TimeSpan::is_immutable_full_day compares a bound with an ordering (%s): only the exact span 00:00-24:00 has no spill into the next day" % ords, lib.where_of(ifd))
